@@ -98,6 +98,19 @@ def runValidatorCase (v : String) : String × String :=
     | _ => hexConstOk bytes
   (s!"V:{b2s ok}", s!"valid={b2s ok} ty={String.ofList (v.toList.take 1)}")
 
+/-- `lineDelivered` (Driver/EngCnf.lean) with a cursor, so that a document of many lines costs one
+walk in total: `rest` = the data from offset `o` on, where `o` is 0 or a value returned before.
+The look-ahead ghost only grows, so the end of the line that contains byte `peeked - 1` is `o`
+itself if `peeked ≤ o`, and otherwise the first newline at or after `peeked - 1`, which lies at or
+after `o`. -/
+def b2LineDeliveredFrom (rest : VBytes) (o peeked : Nat) : VBytes × Nat :=
+  if peeked ≤ o then (rest, o) else
+  let rec go (r : VBytes) (i : Nat) : VBytes × Nat :=
+    match r with
+    | [] => ([], i)
+    | b :: bs => if b == 10 && i + 1 ≥ peeked then (bs, i + 1) else go bs (i + 1)
+  go rest o
+
 def runBtor2Case (line : String) : String × String :=
   let fs := fields line
   if field fs "v" != "" then runValidatorCase (field fs "v") else
@@ -107,9 +120,10 @@ def runBtor2Case (line : String) : String × String :=
     | some k => (full.take k, true)
     | none => (full, false)
   let lr0 := LR.init data fault
-  let at_ (lr : LR) : String := if ls then s!"@{lineDelivered data lr.v.peeked}" else ""
-  -- drive line by line so that the look-ahead ghost can be reported per item
-  let rec drive (fuel : Nat) (lr : LR) (acc : List String) (cm sy : Nat) : List String × String × Nat × Nat :=
+  -- drive line by line so that the look-ahead ghost can be reported per item; `cur` = cursor of
+  -- `b2LineDeliveredFrom`
+  let rec drive (fuel : Nat) (lr : LR) (cur : VBytes × Nat) (acc : List String) (cm sy : Nat) :
+      List String × String × Nat × Nat :=
     match fuel with
     | 0 => (acc.reverse, "E:panic", cm, sy)
     | f + 1 =>
@@ -118,10 +132,12 @@ def runBtor2Case (line : String) : String × String :=
         let (c1, s1) := match l with
           | .comment _ => (1, 0)
           | .node n => ((if n.comment.isSome then 1 else 0), (if n.symbol.isSome then 1 else 0))
-        drive f lr' (s!"{b2Line l}{at_ lr'}" :: acc) (cm + c1) (sy + s1)
+        let cur' := if ls then b2LineDeliveredFrom cur.1 cur.2 lr'.v.peeked else cur
+        let at_ := if ls then s!"@{cur'.2}" else ""
+        drive f lr' cur' (s!"{b2Line l}{at_}" :: acc) (cm + c1) (sy + s1)
       | (.ok none, _) => (acc.reverse, "END", cm, sy)
       | (.error e, _) => (acc.reverse, showPErr e, cm, sy)
-  let (items, fin, cm, sy) := drive (data.length + 2) lr0 [] 0 0
+  let (items, fin, cm, sy) := drive (data.length + 2) lr0 (data, 0) [] 0 0
   (b2joinObs items fin,
    s!"lines={items.length} fin={fin.take 5} fault={b2s fault} ls={b2s ls} cmt={cm} sym={sy} maxkw={maxLowerRun data}")
 
